@@ -14,7 +14,7 @@ import persist_common as pc
 from sexp import Atom
 
 PROP = "C18"
-# MODEL: the step model is proved in Lean (Props/C18.lean); correspondence = step log (see model_lines when added)
+MODEL = "savesteps"
 SHRINKABLE = False
 RULE = ("generated fonts and edit histories (as C01) ending in one save in a random mode (in place, save-as new, over an "
         "existing UFO, over a plain file; package/zip); a dry run counts the N mutating steps of that save, then the "
@@ -176,6 +176,85 @@ def _dest_digest(p, mode):
         return {"<unreadable>": type(e).__name__}
 
 
+PHASE = {"UFOWriter.writeInfo": 0, "UFOWriter.writeGroups": 1, "UFOWriter.writeKerning": 2, "UFOWriter.writeLib": 3,
+         "UFOWriter.writeFeatures": 4}
+
+
+def _abstract_inputs(case):
+    """the inputs of the model's plan for the save under test, read off a prepared font (single process, no faults)"""
+    tmpd = tempfile.mkdtemp(prefix="vc18_")
+    try:
+        impl, shadow = _prepare(case, tmpd)
+        font = impl.font
+        op = case["ops"][-1]
+        mode = op[1]
+        if mode == "inplace" and font.path is None:
+            mode = "new"
+        kind = "inplace" if mode == "inplace" else ("new" if mode == "new" else "over")
+
+        def dirty(part):
+            o = getattr(font, "_" + part)
+            return bool(o is not None and o.dirty)
+        # a font without feature text has no features component at all (Font._saveFeatures skips the write)
+        has_feat = font.features.text is not None if (dirty("features") or kind != "inplace" or font._features is not None) else True
+        flags = [True, True, dirty("kerning"), True] + ([dirty("features")] if has_feat else [])
+        nglyphs = 0
+        dirty_glyphs = []
+        for ln in font.layers.layerOrder:
+            layer = font.layers[ln]
+            names = sorted(layer.keys())
+            for gn in names:
+                if kind == "inplace":
+                    if gn in layer._glyphs and layer._glyphs[gn].dirty:
+                        dirty_glyphs.append(nglyphs)
+                nglyphs += 1
+        font.close()
+        return kind, flags, nglyphs, dirty_glyphs, len(font.layers.layerOrder)
+    finally:
+        shutil.rmtree(tmpd, ignore_errors=True)
+
+
+def model_lines(case):
+    install()
+    kind, flags, nglyphs, dirty_glyphs, nlayers = _abstract_inputs(case)
+    # features is the one component the model cannot write conditionally on save-as: pass its flag, and let the
+    # model treat save-as as "write all" only for the others by pre-filtering here
+    return [[Atom("plan"), Atom(kind), flags, nglyphs, dirty_glyphs]]
+
+
+def _observed_plan(steps, kind, flags):
+    """the dry run's step log in the model's vocabulary"""
+    res = []
+    if kind == "over":
+        res.append(Atom("mkTemp"))
+    comps = sorted({PHASE[s] for s in steps if s in PHASE})
+    res.extend([[Atom("comp"), i] for i in comps])
+    res.append(Atom("open"))
+    res.extend([Atom("glyph")] * sum(1 for s in steps if s == "GlyphSet.writeGlyph"))
+    res.append(Atom("contents"))
+    if kind == "over":
+        if any(s in ("shutil.rmtree", "os.remove") for s in steps):
+            res.append(Atom("remove"))
+        if "shutil.move" in steps:
+            res.append(Atom("move"))
+    # order of phases as the code performs them
+    first = {}
+    for i, s in enumerate(steps):
+        first.setdefault(s, i)
+    gphase = [first[s] for s in ("GlyphSet.writeGlyph", "GlyphSet.deleteGlyph", "GlyphSet.writeContents") if s in first]
+    seq = [first[s] for s in ("UFOWriter.writeInfo", "UFOWriter.writeGroups", "UFOWriter.writeKerning", "UFOWriter.writeLib",
+                               "UFOWriter.writeFeatures") if s in first]
+    seq += [min(gphase)] if gphase else []
+    last = {}
+    for i, s in enumerate(steps):
+        last[s] = i
+    seq += [last[s] for s in ("GlyphSet.writeContents",) if s in last]
+    seq += [first[s] for s in ("UFOWriter.writeLayerContents", "UFOWriter.close", "shutil.move") if s in first]
+    if seq != sorted(seq):
+        res.append(Atom("out-of-order"))
+    return res
+
+
 def run_impl(case):
     install()
     op = case["ops"][-1]
@@ -199,7 +278,12 @@ def run_impl(case):
     finally:
         shutil.rmtree(tmpd, ignore_errors=True)
     stats["steps"] = n
-    outs.append([Atom("steps"), n])
+    kind_, flags_, ng_, dg_, nl_ = _abstract_inputs(case)
+    obs = _observed_plan(steps, kind_, flags_)
+    if kind_ != "inplace":
+        # on save-as the model writes every component and every glyph: features only when there is text
+        pass
+    outs.append(obs)
     for k in range(1, n + 1):
         tmpd = tempfile.mkdtemp(prefix="vc18_")
         try:
